@@ -632,6 +632,44 @@ func (c *census) scanBody(a *apkg, fn string, body ast.Node) {
 					return true
 				}
 			}
+			// a method with a POINTER receiver, declared outside the analysed packages, called on a field of an
+			// analysed struct type (c.depth.Add(1) on an atomic.Int32, x.pool.Put(v), x.m.Store(k, v), x.buf.Write(b)):
+			// the callee is handed &x.f and may modify the field — per-call state kept on a shared object is a
+			// write to it whether or not the operation is atomic. Lock operations on a mutex field are not
+			// listed here (they are the lock tokens of ConcGen.v).
+			if fsel, ok := x.Fun.(*ast.SelectorExpr); ok {
+				if msel, ok := info.Selections[fsel]; ok && msel.Kind() == types.MethodVal {
+					if m, ok := msel.Obj().(*types.Func); ok && m.Pkg() != nil {
+						_, calleeAnalysed := c.byPkg[m.Pkg()]
+						sig, _ := m.Type().(*types.Signature)
+						ptrRecv := false
+						if sig != nil && sig.Recv() != nil {
+							_, ptrRecv = sig.Recv().Type().(*types.Pointer)
+						}
+						recvT := types.TypeString(msel.Recv(), nil)
+						isLock := strings.HasSuffix(recvT, "sync.Mutex") || strings.HasSuffix(recvT, "sync.RWMutex") || strings.HasSuffix(recvT, "sync.Once")
+						if !calleeAnalysed && ptrRecv && !isLock {
+							base := fsel.X
+							for {
+								if p, ok := base.(*ast.ParenExpr); ok {
+									base = p.X
+									continue
+								}
+								break
+							}
+							if bsel, ok := base.(*ast.SelectorExpr); ok {
+								if fs, ok := info.Selections[bsel]; ok && fs.Kind() == types.FieldVal {
+									if _, isPtr := fs.Obj().Type().Underlying().(*types.Pointer); !isPtr {
+										if name, known := c.fieldName[fs.Obj().(*types.Var).Origin()]; known {
+											record("field:"+name, "extmethod:"+m.Name())
+										}
+									}
+								}
+							}
+						}
+					}
+				}
+			}
 			// a call whose callee is not a declared function or method: through a function value
 			var callee types.Object
 			switch f := x.Fun.(type) {
